@@ -122,6 +122,26 @@ def run(ctx):
         prev_map = {}
         targets = []
         ok = True
+        # class targets of successive batches need not share a dtype: category codes start narrow (int8 while there
+        # are few classes) and widen as new classes appear in later batches
+        widen = (not use_artmap) and style == "pfit" and len(calls) >= 2 and r.random() < 0.5
+        if widen:
+            y = np.abs(np.asarray(y, dtype=np.int64)) % 100
+            first_b = calls[0][2]
+            later = np.arange(first_b, n)
+            if len(later):
+                bump = later[[r.random() < 0.6 for _ in later]]
+                y[bump] = y[bump] + r.choice([128, 200, 256, 300, 40000])
+            desc["y"] = y.tolist()
+            # every batch's dtype holds that batch's values exactly
+            desc["label_dtype_per_batch"] = ["int8"] + [("int16" if int(np.max(y[a_:b_], initial=0)) < 2 ** 15 else r.choice(["int32", "int64"]))
+                                                        for (_, a_, b_) in calls[1:]]
+            cov.hit("label-dtype-widens-across-batches")
+
+        def y_of(k_, a_, b_):
+            if not widen:
+                return y[a_:b_]
+            return y[a_:b_].astype({"int8": np.int8, "int16": np.int16, "int32": np.int32, "int64": np.int64}[desc["label_dtype_per_batch"][k_]])
         for k, (op, a, b) in enumerate(calls):
             try:
                 with quiet():
@@ -130,7 +150,7 @@ def run(ctx):
                         prev_map = {}
                         targets = list(range(a, b))
                     else:
-                        est.partial_fit(X[a:b], y[a:b], **kw)
+                        est.partial_fit(X[a:b], y_of(k, a, b), **kw)
                         targets += list(range(a, b))
             except Exception as e:
                 sig = f"{spec['cls']}({acls}).{op}:{exc_enum(e)}"
